@@ -447,6 +447,8 @@ class Machine:
                 continue
             if p[0] == 'deref':
                 r = cont[key]
+                if type(r).__name__ in ('SliceV', 'VecV', 'StrV'):
+                    continue        # fat pointer to a slice: the slice value stands for its pointee
                 if not isinstance(r, Ref):
                     raise Unsupported('deref of non-ref %r' % (r,))
                 cont, key = r.cont, r.key
@@ -467,8 +469,34 @@ class Machine:
                 v = cont[key]
                 # stay on same aggregate; check variant
                 continue
-            elif p[0] == 'index':
-                raise Unsupported('index projection')
+            elif p[0] in ('index', 'constindex'):
+                v = cont[key]
+                while isinstance(v, Ref):
+                    v = v.get()
+                if p[0] == 'index':
+                    i = frame.locals[p[1]]
+                    if is_sym(i):
+                        i = self.concretize(i)
+                else:
+                    mo = re.match(r'^(-?\d+) of (\d+)$', p[1].strip())
+                    if not mo:
+                        raise Unsupported('constindex %r' % (p[1],))
+                    i = int(mo.group(1))
+                tn = type(v).__name__
+                if tn == 'SliceV':
+                    if i < 0 or i >= len(v):
+                        raise Panic('IndexOOB', 'index %d len %d' % (i, len(v)))
+                    cont, key = v.base, v.lo + i
+                elif tn in ('VecV', 'StrV'):
+                    if i < 0 or i >= len(v.items):
+                        raise Panic('IndexOOB', 'index %d len %d' % (i, len(v.items)))
+                    cont, key = v.items, i
+                elif isinstance(v, list):
+                    if i < 0 or i >= len(v):
+                        raise Panic('IndexOOB', 'index %d len %d' % (i, len(v)))
+                    cont, key = v, i
+                else:
+                    raise Unsupported('index into %r' % (v,))
             else:
                 raise Unsupported('proj %r' % (p,))
         return cont, key
@@ -500,6 +528,8 @@ class Machine:
             return True
         if s == 'false':
             return False
+        if s == '()':
+            return Agg('tuple', '()', [])
         m = re.match(r'^([iu](?:8|16|32|64|128|size))::(MIN|MAX)$', s) or re.match(r'^core::num::<impl ([iu](?:8|16|32|64|128|size))>::(MIN|MAX)$', s)
         if m:
             lo, hi = INT_RANGE[m.group(1)]
